@@ -71,6 +71,9 @@ func NoPanic(t Fataler, what string, f func()) {
 	t.Helper()
 	defer func() {
 		if r := recover(); r != nil {
+			if tn := fmt.Sprintf("%T", r); tn == "rapid.stopTest" || tn == "rapid.invalidData" {
+				panic(r) // rapid's own control flow (t.Fatalf / t.Skip inside f)
+			}
 			t.Fatalf("panic in %s: %v\n%s", what, r, debug.Stack())
 		}
 	}()
